@@ -41,20 +41,27 @@ type sOp struct {
 	Len     int    // len(src)
 	InPlace bool   // dst and src are the same slice
 	Extra   int    // separate buffers: len(dst) = Len + Extra
+	Spare   int    // src and dst carry Spare bytes of sentinel-filled spare capacity
+	Empty   int    // Len == 0 only: 0 make([]byte,0), 1 nil, 2 []byte{}, 3 buf[:0] of a non-empty buffer
+	Fail    int    // Len >= 2 only: 1 = dst one byte shorter than src, 2 = inexact overlap; the call must panic
 }
 
 type streamCase struct {
-	Kind   int
-	Key    h.B
-	IV     h.B    // kinds zuc128 / zuc256
-	Count  uint32 // kind eea3
-	Bearer uint32 // 5 bits
-	Dir    uint32 // 1 bit
-	Bucket int    // -1: NewCipher / NewEEACipher; >= 0: ...WithBucketSize(Bucket)
-	Guard  bool   // buffers end right before an inaccessible page
-	Seed   uint64 // plaintext filler
-	Ops    []sOp
+	Kind     int
+	Key      h.B
+	IV       h.B    // kinds zuc128 / zuc256
+	Count    uint32 // kind eea3
+	Bearer   uint32 // 5 bits
+	Dir      uint32 // 1 bit
+	Bucket   int    // -1: NewCipher / NewEEACipher; >= 0: ...WithBucketSize(Bucket)
+	Guard    bool   // buffers end right before an inaccessible page
+	Scribble bool   // key/IV are overwritten right after the constructor returns, src/dst right after each call
+	KeySpare bool   // key and IV are handed over with sentinel-filled spare capacity
+	Seed     uint64 // plaintext filler
+	Ops      []sOp
 }
+
+var emptyNames = []string{"make0", "nil", "literal", "buf[:0]"}
 
 func (c streamCase) history() string {
 	var sb strings.Builder
@@ -72,29 +79,110 @@ func (c streamCase) history() string {
 		} else if op.Extra > 0 {
 			fmt.Fprintf(&sb, ",dst+%d", op.Extra)
 		}
+		if op.Spare > 0 {
+			fmt.Fprintf(&sb, ",cap+%d", op.Spare)
+		}
+		if op.Len == 0 && op.Empty > 0 {
+			sb.WriteString("," + emptyNames[op.Empty&3])
+		}
+		if op.failKind() > 0 {
+			sb.WriteString([]string{"", ",FAIL:short-dst", ",FAIL:overlap"}[op.failKind()])
+		}
 		sb.WriteString(")")
+	}
+	if c.Scribble {
+		sb.WriteString(" +scribble")
 	}
 	return sb.String()
 }
 
+func (op sOp) failKind() int {
+	if op.Len >= 2 && (op.Fail == 1 || op.Fail == 2) {
+		return op.Fail
+	}
+	return 0
+}
+
+const (
+	spareSentinel = 0x5C
+	scribbleByte  = 0xEE
+)
+
+// withSpare returns a private copy of b; if spare, with 24 bytes of
+// sentinel-filled spare capacity, and a function that verifies the sentinel.
+func withSpare(b []byte, spare int, what string) ([]byte, func() error) {
+	full := make([]byte, len(b)+spare)
+	copy(full, b)
+	for i := len(b); i < len(full); i++ {
+		full[i] = spareSentinel
+	}
+	return full[:len(b)], func() error {
+		for i := len(b); i < len(full); i++ {
+			if full[i] != spareSentinel {
+				return fmt.Errorf("spare capacity of %s was written at index %d (len %d)", what, i, len(b))
+			}
+		}
+		return nil
+	}
+}
+
+func scribble(b []byte) {
+	b = b[:cap(b)]
+	for i := range b {
+		b[i] = scribbleByte ^ byte(i)
+	}
+}
+
+// newStream builds the cipher from private copies of key and IV. With
+// Scribble the copies are overwritten as soon as the constructor has returned:
+// the object must not depend on the caller's memory afterwards.
 func newStream(c streamCase) (gmcipher.SeekableStream, []byte, error) {
+	spare := 0
+	if c.KeySpare {
+		spare = 24
+	}
+	key, keyOK := withSpare(c.Key, spare, "key")
+	var s gmcipher.SeekableStream
+	var err error
+	var modelIV []byte
+	var ivOK func() error
 	switch c.Kind {
 	case kind128, kind256:
+		var iv []byte
+		iv, ivOK = withSpare(c.IV, spare, "iv")
+		modelIV = c.IV
 		if c.Bucket < 0 {
-			s, err := zuc.NewCipher(c.Key, c.IV)
-			return s, c.IV, err
+			s, err = zuc.NewCipher(key, iv)
+		} else {
+			s, err = zuc.NewCipherWithBucketSize(key, iv, c.Bucket)
 		}
-		s, err := zuc.NewCipherWithBucketSize(c.Key, c.IV, c.Bucket)
-		return s, c.IV, err
+		if err == nil && string(iv) != string(c.IV) {
+			err = fmt.Errorf("constructor modified the IV")
+		}
+		if err == nil {
+			err = ivOK()
+		}
+		if c.Scribble {
+			scribble(iv)
+		}
 	default:
-		iv := refEEA3IV(c.Count, c.Bearer, c.Dir)
+		modelIV = refEEA3IV(c.Count, c.Bearer, c.Dir)
 		if c.Bucket < 0 {
-			s, err := zuc.NewEEACipher(c.Key, c.Count, c.Bearer, c.Dir)
-			return s, iv, err
+			s, err = zuc.NewEEACipher(key, c.Count, c.Bearer, c.Dir)
+		} else {
+			s, err = zuc.NewEEACipherWithBucketSize(key, c.Count, c.Bearer, c.Dir, c.Bucket)
 		}
-		s, err := zuc.NewEEACipherWithBucketSize(c.Key, c.Count, c.Bearer, c.Dir, c.Bucket)
-		return s, iv, err
 	}
+	if err == nil && string(key) != string(c.Key) {
+		err = fmt.Errorf("constructor modified the key")
+	}
+	if err == nil {
+		err = keyOK()
+	}
+	if c.Scribble {
+		scribble(key)
+	}
+	return s, modelIV, err
 }
 
 // effBucket is the documented effective bucket size: rounded up to a multiple
@@ -128,6 +216,40 @@ func (l *labelSet) add(format string, a ...any) {
 	}
 }
 
+// opPlan says where an op acts in the model. A call that must fail produces
+// no output. A failing sequential call leaves the position where it was (its
+// precondition checks precede any state change); after a failing POSITIONED
+// call the sequential position is not documented (the seek may or may not have
+// happened), so nothing is asserted about it: a sequential op that follows is
+// executed as a positioned call at the last known model position.
+type opPlan struct {
+	start uint64
+	at    bool
+	fail  int
+}
+
+func (c streamCase) plan() (plans []opPlan, maxEnd uint64) {
+	var pos uint64
+	unknown := false
+	for _, op := range c.Ops {
+		p := opPlan{start: pos, at: op.At || unknown, fail: op.failKind()}
+		if op.At {
+			p.start = op.Off
+		}
+		if p.fail == 0 {
+			pos = p.start + uint64(op.Len)
+			unknown = false
+			if pos > maxEnd {
+				maxEnd = pos
+			}
+		} else if p.at {
+			unknown = true
+		}
+		plans = append(plans, p)
+	}
+	return
+}
+
 func checkStream(c streamCase, r *h.Rec) error {
 	ls := &labelSet{r, map[string]bool{}}
 	s, iv, err := newStream(c)
@@ -144,34 +266,38 @@ func checkStream(c streamCase, r *h.Rec) error {
 	default:
 		ls.add("bucket=other(2..2100)")
 	}
+	if c.Scribble {
+		ls.add("scribble:key,iv,src,dst")
+	} else {
+		ls.add("scribble:off")
+	}
+	if c.KeySpare {
+		ls.add("key/iv:spare-capacity")
+	}
 
 	// the reference keystream up to the furthest position any call touches
-	var pos, maxEnd uint64
-	for _, op := range c.Ops {
-		start := pos
-		if op.At {
-			start = op.Off
-		}
-		pos = start + uint64(op.Len)
-		if pos > maxEnd {
-			maxEnd = pos
-		}
-	}
+	plans, maxEnd := c.plan()
 	ks := refKeystream(c.Key, iv, int(maxEnd))
 
 	nt := false
-	pos = 0
+	var pos uint64 // model position before the op (classification only)
+	afterFail := false
 	for i, op := range c.Ops {
-		start := pos
-		if op.At {
-			start = op.Off
-		}
+		pl := plans[i]
+		start := pl.start
 		end := start + uint64(op.Len)
 
 		// ---- classification (model position only; nothing here feeds the oracle)
 		buffered := (128 - pos%128) % 128 // unread bytes of the current 128-byte round
 		switch {
-		case !op.At:
+		case pl.fail > 0:
+			ls.add("fail:%s", []string{"", "short-dst", "inexact-overlap"}[pl.fail])
+			if pl.at {
+				ls.add("fail:positioned-call")
+			} else {
+				ls.add("fail:sequential-call")
+			}
+		case !pl.at:
 			ls.add("op:sequential")
 		case start < pos:
 			nt = true
@@ -206,53 +332,105 @@ func checkStream(c streamCase, r *h.Rec) error {
 				ls.add("seek:forward-crosses-bucket")
 			}
 		}
-		if op.Len == 0 {
-			ls.add("len=0")
-		} else {
-			if B > 0 && start/B != end/B {
-				nt = true
-				ls.add("call:straddles-bucket-boundary")
+		if pl.fail == 0 {
+			if afterFail {
+				ls.add("reuse:after-failed-call")
 			}
-			if start/128 != (end-1)/128 {
-				ls.add("call:straddles-128B-round")
+			if op.Len == 0 {
+				ls.add("len=0/%s", emptyNames[op.Empty&3])
+			} else {
+				if B > 0 && start/B != end/B {
+					nt = true
+					ls.add("call:straddles-bucket-boundary")
+				}
+				if start/128 != (end-1)/128 {
+					ls.add("call:straddles-128B-round")
+				}
+				if start%4 != 0 || end%4 != 0 {
+					ls.add("call:unaligned-to-word")
+				}
 			}
-			if start%4 != 0 || end%4 != 0 {
-				ls.add("call:unaligned-to-word")
+			if op.InPlace {
+				ls.add("buf:in-place")
+			} else {
+				ls.add("buf:separate")
+			}
+			if op.Spare > 0 {
+				ls.add("buf:spare-capacity")
 			}
 		}
-		if op.InPlace {
-			ls.add("buf:in-place")
-		} else {
-			ls.add("buf:separate")
+
+		call := func(dst, src []byte) {
+			if pl.at {
+				s.XORKeyStreamAt(dst, src, start)
+			} else {
+				s.XORKeyStream(dst, src)
+			}
+		}
+
+		// ---- a call that has to fail: it must panic, and must not spoil later calls
+		if pl.fail > 0 {
+			var src, dst []byte
+			if pl.fail == 1 {
+				src, dst = make([]byte, op.Len), make([]byte, op.Len-1)
+			} else {
+				buf := make([]byte, op.Len+1)
+				src, dst = buf[:op.Len], buf[1:op.Len+1]
+			}
+			panicked := func() (p bool) {
+				defer func() { p = recover() != nil }()
+				call(dst, src)
+				return
+			}()
+			if !panicked {
+				return fmt.Errorf("op %d of [%s]: the call did not panic (cipher.Stream: 'If len(dst) < len(src), XORKeyStream should panic'; partial overlap is forbidden)", i, c.history())
+			}
+			afterFail = true
+			continue
 		}
 
 		// ---- the call
 		plain := gen.Fill(gen.Mix(c.Seed, uint64(i)), op.Len)
 		if err := func() error {
-			alloc := func(n int) ([]byte, func()) {
-				if c.Guard {
+			noCheck := func() error { return nil }
+			alloc := func(n int, fill byte) ([]byte, func() error, func()) {
+				switch {
+				case op.Len == 0 && n == 0 && op.Empty&3 == 1:
+					return nil, noCheck, func() {}
+				case op.Len == 0 && n == 0 && op.Empty&3 == 2:
+					return []byte{}, noCheck, func() {}
+				case op.Len == 0 && n == 0 && op.Empty&3 == 3:
+					b, ok := withSpare(nil, 16, "a zero-length buffer")
+					return b, ok, func() {}
+				case op.Spare > 0:
+					b, ok := withSpare(make([]byte, n), op.Spare, "a buffer")
+					for j := range b {
+						b[j] = fill
+					}
+					return b, ok, func() {}
+				case c.Guard:
 					g := gen.NewGuarded(n, true)
-					return g.B, g.Free
+					for j := range g.B {
+						g.B[j] = fill
+					}
+					return g.B, noCheck, g.Free
 				}
-				return make([]byte, n), func() {}
+				b := make([]byte, n)
+				for j := range b {
+					b[j] = fill
+				}
+				return b, noCheck, func() {}
 			}
-			src, freeSrc := alloc(op.Len)
+			src, srcOK, freeSrc := alloc(op.Len, 0)
 			defer freeSrc()
 			copy(src, plain)
-			dst := src
+			dst, dstOK := src, noCheck
 			if !op.InPlace {
 				var freeDst func()
-				dst, freeDst = alloc(op.Len + op.Extra)
+				dst, dstOK, freeDst = alloc(op.Len+op.Extra, 0xA5)
 				defer freeDst()
-				for j := range dst {
-					dst[j] = 0xA5
-				}
 			}
-			if op.At {
-				s.XORKeyStreamAt(dst, src, op.Off)
-			} else {
-				s.XORKeyStream(dst, src)
-			}
+			call(dst, src)
 			for j := 0; j < op.Len; j++ {
 				if dst[j] != plain[j]^ks[start+uint64(j)] {
 					got := make([]byte, op.Len)
@@ -274,6 +452,17 @@ func checkStream(c streamCase, r *h.Rec) error {
 						return fmt.Errorf("op %d of [%s]: dst[%d] beyond len(src)=%d was written", i, c.history(), j, op.Len)
 					}
 				}
+			}
+			if err := srcOK(); err != nil {
+				return fmt.Errorf("op %d of [%s]: %v", i, c.history(), err)
+			}
+			if err := dstOK(); err != nil {
+				return fmt.Errorf("op %d of [%s]: %v", i, c.history(), err)
+			}
+			if c.Scribble {
+				// the buffers of this call are garbage from now on
+				scribble(src)
+				scribble(dst)
 			}
 			return nil
 		}(); err != nil {
@@ -415,21 +604,40 @@ func genStream(kind int) func(*rapid.T) streamCase {
 			c.Bucket = rapid.IntRange(2, 2100).Draw(t, "bucketAny")
 		}
 		c.Guard = rapid.Bool().Draw(t, "guard")
+		c.Scribble = rapid.IntRange(0, 2).Draw(t, "scribble") > 0
+		c.KeySpare = rapid.IntRange(0, 3).Draw(t, "keySpare") == 0
 		c.Seed = rapid.Uint64().Draw(t, "seed")
 		B := effBucket(c.Bucket)
 		n := rapid.IntRange(1, 16).Draw(t, "nops")
 		var pos uint64
+		mustSeek := false // the sequential position is undefined after a failed positioned call
 		for i := 0; i < n; i++ {
 			op := sOp{Len: drawLen(t)}
-			op.At = rapid.IntRange(0, 9).Draw(t, "at") < 7
+			op.At = rapid.IntRange(0, 9).Draw(t, "at") < 7 || mustSeek
 			if op.At {
 				op.Off = drawOff(t, pos, B)
+			}
+			if op.Len >= 2 && rapid.IntRange(0, 11).Draw(t, "fail") == 0 {
+				// a call that has to panic; the model position does not move
+				op.Fail = rapid.IntRange(1, 2).Draw(t, "failKind")
+				mustSeek = mustSeek || op.At
+				c.Ops = append(c.Ops, op)
+				continue
+			}
+			mustSeek = false
+			if op.At {
 				pos = op.Off
 			}
 			pos += uint64(op.Len)
 			op.InPlace = rapid.Bool().Draw(t, "inplace")
 			if !op.InPlace && rapid.IntRange(0, 3).Draw(t, "longerDst") == 0 {
 				op.Extra = rapid.IntRange(1, 40).Draw(t, "extra")
+			}
+			if rapid.IntRange(0, 4).Draw(t, "spareCap") == 0 {
+				op.Spare = rapid.IntRange(1, 40).Draw(t, "spare")
+			}
+			if op.Len == 0 {
+				op.Empty = rapid.IntRange(0, 3).Draw(t, "empty")
 			}
 			c.Ops = append(c.Ops, op)
 		}
@@ -508,7 +716,7 @@ func TestC11_StreamSeekPairs(t *testing.T) {
 							if !h.Thorough() && k != i%len(len2s) {
 								continue
 							}
-							emit(streamCase{Kind: kind, Key: key, IV: iv, Bucket: b, Seed: seed, Guard: false,
+							emit(streamCase{Kind: kind, Key: key, IV: iv, Bucket: b, Seed: seed, Guard: false, Scribble: i%3 != 0,
 								Ops: withProbes(b, []sOp{{Len: len1, InPlace: i%2 == 0}, {At: true, Off: uint64(off2), Len: len2, InPlace: i%3 == 0}, {Len: 5}})})
 						}
 						i++
@@ -540,7 +748,7 @@ func TestC11_StreamSeekGrid(t *testing.T) {
 				for _, l1 := range lens {
 					for _, o2 := range offs {
 						for _, l2 := range lens {
-							c := streamCase{Kind: kind, Key: key, Bucket: b, Seed: seed,
+							c := streamCase{Kind: kind, Key: key, Bucket: b, Seed: seed, Scribble: (o1+l1+o2+l2)%3 != 0,
 								Ops: withProbes(b, []sOp{{At: true, Off: uint64(o1), Len: l1}, {At: true, Off: uint64(o2), Len: l2, InPlace: true}, {Len: 3}})}
 							if kind == kindEEA {
 								c.Count, c.Bearer, c.Dir = uint32(seed), uint32(seed>>32)&31, uint32(seed>>40)&1
@@ -553,6 +761,35 @@ func TestC11_StreamSeekGrid(t *testing.T) {
 				}
 			}
 			i++
+		}
+	}, checkStream)
+}
+
+// Single calls whose length crosses 65535/65536 bytes (512 rounds in one
+// XORKeyStream loop, the number of saved states passing 255/256 and 511/512
+// for the small bucket sizes), starting aligned and unaligned, then read back
+// through the saved states.
+func TestC11_StreamLongCalls(t *testing.T) {
+	h.Sweep(t, h.P{Name: "stream-long-calls", Journal: true}, func(emit func(streamCase)) {
+		i := 0
+		for _, kind := range []int{kind128, kind256} {
+			seed := gen.Mix(h.Seed, uint64(kind), 0x10c6)
+			n, nIV := 16, 16
+			if kind == kind256 {
+				n, nIV = 32, 23
+			}
+			key, iv := gen.Fill(gen.Mix(seed, 1), n), gen.Fill(gen.Mix(seed, 2), nIV)
+			for _, b := range []int{-1, 128, 257, 1000, 65536} {
+				for _, first := range []int{0, 3, 127} {
+					for _, long := range []int{255*128 + 1, 256 * 128, 65535, 65536, 65537, 65536 + 128, 2*65536 + 1} {
+						i++
+						ops := []sOp{{Len: first}, {Len: long, InPlace: i%2 == 0}, {Len: 9}}
+						ops = withProbes(b, ops)
+						ops = append(ops, sOp{At: true, Off: 65536 - 5, Len: 10}, sOp{At: true, Off: 255*128 - 1, Len: 258})
+						emit(streamCase{Kind: kind, Key: key, IV: iv, Bucket: b, Seed: seed, Scribble: i%3 != 0, Ops: ops})
+					}
+				}
+			}
 		}
 	}, checkStream)
 }
